@@ -1261,7 +1261,7 @@ Proof.
   - apply in_app_or in Hd as [Hd|Hd]; [exact (proj2 Hc l1 x l2 (NTarget t) d El En Hd)|].
     unfold rdeps in Hd. apply in_flat_map in Hd as (d0 & Hd0 & Hj).
     destruct (resolve s d0) as [[j dt]|] eqn:Er; [|destruct Hj]. destruct Hj as [<-|[]].
-    apply (closed_resolve l Hc _ d0 j dt l1 (x :: l2) El); [|exact Er].
+    apply (closed_resolve l Hc (S (length (s_nodes s))) d0 j dt l1 (x :: l2) El); [|exact Er].
     exact (proj2 Hc l1 x l2 (NTarget t) d0 El En Hd0).
   - exact (proj2 Hc l1 x l2 (NAlias lb a) d El En Hd).
 Qed.
